@@ -1,9 +1,9 @@
 SPECIFICATION Spec
 CONSTANTS
   NaN = NaN
-  Cores <- CoresQ
-  Epochs <- EpochsQ
-  MaxTuples = 3
+  Cores <- CoresT
+  Epochs <- EpochsT
+  MaxTuples = 4
   MaxFormTuples = 3
   Pos <- Positions
   DevAccumulate = FALSE
